@@ -14,6 +14,10 @@ tied to the NumPy namesake by C03.kernel (op class -> kernel) and C11.registry.
 from __future__ import annotations
 
 import ast
+import json
+import os
+
+import z3
 
 from pyvc import frontend
 from pyvc.builtins_model import default_builtins
@@ -134,8 +138,10 @@ def harness(modname, fname, method_of=None):
             args.append(t)
         if a.vararg:
             for i in range(2):
-                t = Tok(f"*{a.vararg.arg}[{i}]")
-                toks[t.pname] = t
+                # integers (axes, shapes): arbitrary symbolic values, so that any value-dependent rewriting forks a path on which the
+                # value handed to the op is no longer the caller's object
+                t = z3.Int(f"{a.vararg.arg}{i}")
+                toks[f"*{a.vararg.arg}[{i}]"] = t
                 args.append(t)
         for p in a.kwonlyargs:
             t = Tok(p.arg)
@@ -164,7 +170,7 @@ def harness(modname, fname, method_of=None):
         okw = kw.get("op_kwargs") or {}
         if isinstance(okw, dict):
             for k_, v_ in okw.items():
-                if isinstance(v_, Tok):
+                if isinstance(v_, Tok):  # (symbolic integers come from *varargs and are never keyword values)
                     ctx.oblige(f"{tag}.kwarg[{k_}]_keeps_its_name", v_.pname == k_ or (k_, v_.pname) in RENAMES, got=v_.pname, **meta)
 
     return h
@@ -217,4 +223,14 @@ def obligations(tier="quick"):
                 info["functions"][q] = frontend.source_hash(node)
             except frontend.ExtractionError:
                 pass
+    # every wrapper that was under contract when the baseline was recorded must still be: a wrapper whose body no longer fits the subset
+    # (or no longer reaches _op exactly once) is "undecided", not silently dropped
+    try:
+        base = json.load(open(os.path.join(os.path.dirname(os.path.abspath(__file__)), "c03_wrappers_baseline.json")))
+    except Exception:
+        base = []
+    for q in base:
+        if q not in info["wrappers"]:
+            why = next((b for b in info["bespoke_needed"] if b.startswith(q + ":")), "no completed path")
+            info["unsupported"].append(f"wrapper {q} was under contract and no longer is: {why}")
     return out, info
